@@ -80,7 +80,7 @@ fn main() {
         "repl" => {
             let maxlen: u64 = arg("--maxlen", "20").parse().unwrap();
             let mode = match arg("--mode", "log").as_str() { "crash" => gen::Mode::Crash, "torn" => gen::Mode::Torn, _ => gen::Mode::Log };
-            finish(&out, gen::replication_histories(seed, n, maxlen, mode));
+            if arg("--kind", "random") == "page" { finish(&out, gen::page_replica_histories(seed, n)); } else { finish(&out, gen::replication_histories(seed, n, maxlen, mode)); }
         }
         _ => { eprintln!("unknown command"); std::process::exit(2); }
     }
